@@ -111,9 +111,13 @@ class AoefSim:
         # a real symbolic link below the relative audio root "rel/aud" (nodes
         # work in the run directory): rel/aud/latest -> 2023. A recording at
         # rel/aud/latest/x.wav is, lexically, latest/x.wav relative to the root
+        # ... and the relative root is itself reached through a link (a data
+        # disk mounted elsewhere): rel -> rel.real. Lexically nothing changes;
+        # code that resolves one side and not the other sees two directories
         try:
-            os.makedirs(os.path.join(run_dir, "rel", "aud", "2023"), exist_ok=True)
-            os.symlink("2023", os.path.join(run_dir, "rel", "aud", "latest"))
+            os.makedirs(os.path.join(run_dir, "rel.real", "aud", "2023"), exist_ok=True)
+            os.symlink("rel.real", os.path.join(run_dir, "rel"))
+            os.symlink("2023", os.path.join(run_dir, "rel.real", "aud", "latest"))
         except OSError:
             pass
 
